@@ -50,7 +50,8 @@ def mc_algebra(res, L, M):
         raise ToolError("MCAlgebra: law %s fails on the SPEC\n%s" % (r["violated"], r["out"][-2000:]))
 
 
-C20_FIELDS = ["cmp", "eq", "merge", "hash_eq", "inc", "inc_greater", "from_accepts", "from_values", "insert", "dnm_rewrite"]
+C20_FIELDS = ["cmp", "eq", "merge", "hash_eq", "inc", "inc_greater", "from_accepts", "from_values", "insert", "dnm_rewrite",
+              "dnm_index", "dnm_into_iter", "dnm_same", "dnm_index_mut", "dnm_neq"]
 C10A_FIELDS = ["plan", "reindex", "reindex_sorted", "reindex_ids", "rewrite", "rewrite_last", "dnm_rewrite"]
 
 
@@ -60,10 +61,13 @@ def c20(res):
     L, M = (3, 2) if q else (4, 2)
     mc_algebra(res, L, M)
     run_algebra(res, wd, "vc", L, M, C20_FIELDS, label="vector clocks: all pairs of sequences of length <=%d, components <=%d" % (L, M))
+    run_algebra(res, wd, "vcbig", 3000 if q else 40000, 0, C20_FIELDS, seed_=seed(),
+                label="vector clocks (sampled): up to 8 components drawn from {0,1,2,3,127,128,255,256,65535,65536,2^31-2}, pairs related by "
+                      "trailing zeros / one edited component / truncation; increments at and beyond the end")
     run_algebra(res, wd, "dnm", 3 if q else 4, 2, C20_FIELDS, label="dense maps: all (key,value) pair lists (gaps, duplicates, every order), inserts, all plans")
     res.rule = ("the laws are TLC-checked theorems of VectorClock.tla over the whole finite domain (MCAlgebra: all pairs, triples "
                 "for transitivity / least-upper-bound); the real partial_cmp / eq / merge_max / incremented / hash stream and "
-                "DenseNatMap from_iter / get / iter / insert / rewrite agree POINTWISE with the spec on the same domain")
+                "DenseNatMap from_iter / get / iter / insert / rewrite / Index / IndexMut / IntoIterator / From<Vec> / FromIterator<V> / == / hash agree POINTWISE with the spec on the same domain")
     res.extra["exhaustive"] = True
     res.assumptions += ["exhaustive within the component bounds only (TLC cannot quantify over unbounded clocks)"]
     shutil.rmtree(wd, ignore_errors=True)
